@@ -722,6 +722,16 @@ fn ubj(rng: &mut Rng, ctx: &mut Ctx) {
 pub fn canon_end(e: &peppi::game::End) -> String { serde_json::to_string(&serde_json::to_value(e).unwrap()).unwrap() }
 
 fn peppi_suite(rng: &mut Rng, ctx: &mut Ctx) {
+    // one long game (first shard): more frame rows than fit a 16-bit count, through .slpp and back (oracle only: the
+    // model is not run on an 11 MB file)
+    if ctx.seed % 1000 == 0 { let n = 65_537 + (ctx.seed as usize / 1000) % 3; let r = simple((3, 16, 0), &[(1, 0, 9)], n, &[], rng); let b = encode(&r);
+        let mut c = Case::new(format!("skipcase long-game {}", n), String::new());
+        let res = std::panic::catch_unwind(|| -> Result<bool, String> { let g = slippi::read(Cursor::new(&b), None).map_err(|e| format!("read: {}", e))?; let mut a = vec![];
+            peppi::io::peppi::write(&mut a, g, Some(&peppi::io::peppi::ser::Opts { compression: Some(arrow2::io::ipc::write::Compression::LZ4) })).map_err(|e| format!("peppi write: {}", e))?;
+            let g2 = peppi::io::peppi::read(Cursor::new(&a), None).map_err(|e| format!("peppi read: {}", e))?; let mut o = vec![]; slippi::write(&mut o, &g2).map_err(|e| format!("write: {}", e))?; Ok(o == b) });
+        match res { Ok(Ok(true)) => c.impl_out = "ok same".into(), Ok(Ok(false)) => { c.impl_out = "ok different".into(); c.fail("C02", format!("slp -> slpp -> slp differs from the original for a game of {} frames", n)); }
+            Ok(Err(e)) => { c.impl_out = format!("err {}", e); c.fail("C02", format!("game of {} frames does not survive slp -> slpp -> slp: {}", n, e)); } Err(_) => { c.impl_out = "panic".into(); c.fail("C02", format!("panic on a game of {} frames", n)); } }
+        c.tags = vec!["long-game".into()]; ctx.push(c); }
     use std::io::Read;
     use arrow2::io::ipc::read::{read_stream_metadata, StreamReader, StreamState};
     let comps = [None, Some(arrow2::io::ipc::write::Compression::LZ4), Some(arrow2::io::ipc::write::Compression::ZSTD)];
